@@ -17,7 +17,7 @@
    the number of input bytes not yet consumed at that point; buffers that grow while bytes
    arrive (io.ReadAll, append) add  Grow bytes.  The cost of a run is the sum of its log. *)
 From WI Require Import Lib.Base Lib.Info Model.Base64.
-From WI Require gen.FileTypes.
+From WI Require gen.FileTypes gen.Asn1Names.
 Open Scope N_scope.
 
 (* ------------------------------------------------------------------------------------- *)
@@ -365,8 +365,11 @@ Definition der_tag_and_length (r : bytes) : result (der_hdr * bytes) :=
 
 Inductive raw : Type := Raw (cls tag : N) (content full : N) (children : list raw).
 
-Definition sizeof_raw : N := 88.       (* asn1struct.Raw: 2 ints + 2 byte slices + 1 slice *)
+Definition sizeof_raw : N := 96.       (* asn1struct.Raw: 2 ints + bool + 2 byte slices + 1 slice *)
 Definition sizeof_rawvalue : N := 80.  (* asn1.RawValue boxed by Unmarshal's reflection *)
+
+(* raw.go: const maxDepth, regenerated from the running code (asn1struct.VerifMaxDepth) *)
+Definition der_max_depth : N := gen.Asn1Names.asn1_max_depth.
 
 (* append(items, item) on a slice with c elements and capacity cap: a new backing array of
    twice the capacity (1 for the first element) when the slice is full *)
@@ -374,10 +377,13 @@ Definition append_grow (sz c cap : N) : N * log :=
   if c =? cap then (let cap' := if cap =? 0 then 1 else 2 * cap in (cap', [Grow (sz * cap')]))
   else (cap, []).
 
-(* raw.go:12-36 ParseRaw.  Bytes/FullBytes are sub-slices of the input (no allocation);
-   [items] grows by append; every Unmarshal boxes one RawValue.  [c], [cap] = length and
-   capacity of items at this level. *)
-Fixpoint der_parse_items (fuel : nat) (rest : bytes) (c cap : N) : cres (list raw) :=
+(* raw.go ParseRaw / parseRaw (after the repairs F16 and F34).  Bytes/FullBytes are sub-slices
+   of the input (no allocation); [items] grows by append; every Unmarshal boxes one RawValue.
+   [c], [cap] = length and capacity of items at this level; [depth] = the level (1 = top).
+   A constructed element with non-empty content is entered unless that would be level
+   maxDepth + 1 (ErrTooDeep: the whole parse fails); an empty constructed element has no
+   children and is not entered. *)
+Fixpoint der_parse_items (fuel : nat) (rest : bytes) (c cap : N) (depth : N) : cres (list raw) :=
   match fuel with
   | O => rfail "fuel"
   | S f =>
@@ -389,18 +395,24 @@ Fixpoint der_parse_items (fuel : nat) (rest : bytes) (c cap : N) : cres (list ra
           | None => rfail "data truncated"
           | Some (content, rest') =>
               tick (Grow sizeof_rawvalue)
-              (let+ children := (if h_compound h then der_parse_items f content 0 0 else rret []) in
+              (let+ children :=
+                 (if h_compound h && (0 <? h_len h) then
+                    (if der_max_depth <? depth + 1 then rfail "asn1struct: elements nested too deeply"
+                     else der_parse_items f content 0 0 (depth + 1))
+                  else rret []) in
                let item := Raw (h_class h) (h_tag h) (h_len h) (h_hdrlen h + h_len h) children in
                let '(cap', lg) := append_grow sizeof_raw c cap in
                logged lg
                (match rest' with
                 | [] => rret [item]
-                | _ => rmap (cons item) (der_parse_items f rest' (c + 1) cap')
+                | _ => rmap (cons item) (der_parse_items f rest' (c + 1) cap' depth)
                 end))
           end
       end
   end.
-Definition der_parse_raw (data : bytes) : cres (list raw) := der_parse_items (S (length data)) data 0 0.
+Definition der_parse_raw (data : bytes) : cres (list raw) :=
+  if der_max_depth <? 1 then rfail "asn1struct: elements nested too deeply"
+  else der_parse_items (S (length data)) data 0 0 1.
 
 Fixpoint raw_depth (r : raw) : nat :=
   match r with Raw _ _ _ _ ch => S (fold_right (fun x m => Nat.max (raw_depth x) m) O ch) end.
@@ -589,6 +601,70 @@ Definition rpm_parse (data : bytes) : cres (list (list rpm_index)) :=
     let+ (h2, _) := rpm_read_header r2 in
     rret [h1; h2])).
 
+(* internal/file/rpm.go rpmCheckIndex (repair of F25 for RPM): RPMFile hands the data to go-rpm
+   only when every count and size of both headers fits the bytes present *)
+Fixpoint rpm_strings_fit (fuel : nat) (count : N) (b : bytes) : bool :=
+  match fuel with
+  | O => true
+  | S f =>
+      if count =? 0 then true else
+      let j := rpm_scan_nul b 0 in
+      if j =? lenN b then false else rpm_strings_fit f (count - 1) (drop (N.to_nat (j + 1)) b)
+  end.
+
+Definition rpm_entry_fits (store : bytes) (size : N) (e : bytes) : bool :=
+  let typ := be32 (drop 4 e) in
+  let offset := be32 (drop 8 e) in
+  let count := be32 (drop 12 e) in
+  if size <? offset then false else
+  let avail := size - offset in
+  if (typ =? 1) || (typ =? 2) || (typ =? 7) then count <=? avail
+  else if typ =? 3 then count <=? avail / 2
+  else if typ =? 4 then count <=? avail / 4
+  else if typ =? 5 then count <=? avail / 8
+  else if (typ =? 6) || (typ =? 8) || (typ =? 9) then
+    (if count <=? avail then rpm_strings_fit (N.to_nat count) count (drop (N.to_nat offset) store) else false)
+  else true.
+
+Fixpoint rpm_entries_fit (k : nat) (index store : bytes) (size : N) : bool :=
+  match k with
+  | O => true
+  | S k' => rpm_entry_fits store size index && rpm_entries_fit k' (drop 16 index) store size
+  end.
+
+(* one header at r: None = errRPMIndex; Some None = fewer than 16 bytes left (the library will
+   report); Some (Some r') = fits, continue at r' *)
+Definition rpm_check_header (r : bytes) : option (option bytes) :=
+  if lenN r <? 16 then Some None else
+  let n := be32 (drop 8 r) in
+  let size := be32 (drop 12 r) in
+  let r1 := drop 16 r in
+  if lenN r1 / 16 <? n then None else
+  match split_at (16 * n) r1 with
+  | None => None
+  | Some (index, r2) =>
+      match split_at size r2 with
+      | None => None
+      | Some (store, r3) =>
+          if rpm_entries_fit (N.to_nat n) index store size then
+            Some (Some (if size mod 8 =? 0 then r3 else drop (N.to_nat (8 - size mod 8)) r3))
+          else None
+      end
+  end.
+
+Definition rpm_check_index (data : bytes) : bool :=
+  if lenN data <? 96 then true else
+  match rpm_check_header (drop 96 data) with
+  | None => false
+  | Some None => true
+  | Some (Some r) => match rpm_check_header r with None => false | Some _ => true end
+  end.
+
+(* file.RPMFile up to the library call: pre-validation, then rpm.ReadPackageFile *)
+Definition rpm_file (data : bytes) : cres (list (list rpm_index)) :=
+  if rpm_check_index data then rpm_parse data else rfail "rpm: index entry does not fit the header"
+.
+
 (* ------------------------------------------------------------------------------------- *)
 (* the components by name, for the case runner                                            *)
 (* ------------------------------------------------------------------------------------- *)
@@ -605,5 +681,6 @@ Definition component_log (comp data aux : bytes) : option log :=
   else if bytes_eqb comp (bs "der") then Some (snd (der_parse_raw data))
   else if bytes_eqb comp (bs "b64") then Some (snd (b64_decode_any data))
   else if bytes_eqb comp (bs "jks") then Some (snd (jks_parse data))
-  else if bytes_eqb comp (bs "rpm") then Some (snd (rpm_parse data))
+  else if bytes_eqb comp (bs "rpm") then Some (snd (rpm_file data))
+  else if bytes_eqb comp (bs "rpmlib") then Some (snd (rpm_parse data))
   else None.
